@@ -159,9 +159,12 @@ def spoksyntax(ctx, tier):
     cat = catalogue()
     nexh = len(cat)
     for k, nodes in enumerate(cat):
-        structs.append({"exh": k < nexh, "lay": DEFAULT, "nodes": nodes})
+        structs.append({"exh": k < nexh, "lays": [DEFAULT], "nodes": nodes})
     for _ in range(6000 if tier == "quick" else 40000):
-        structs.append({"exh": False, "lay": random_layout(rnd), "nodes": random_structure(rnd)})
+        nodes = random_structure(rnd)
+        # one layout for the whole file, or a different one for every statement (mixed line endings, indentation, spacing)
+        lays = [random_layout(rnd)] if rnd.random() < 0.5 else [random_layout(rnd) for _ in range(max(1, len(nodes)))]
+        structs.append({"exh": False, "lays": lays, "nodes": nodes})
     wd = ctx.sub("spoksyntax")
     lex = dict(LEX)
     trimmed = {}
